@@ -43,6 +43,210 @@ def declared_widths(inst, data_bits, extra_ranges=()):
     return inst
 
 
+# ------------------------------------------------------------------------------------------------------
+# robustness: an exception or a hang while building or driving a (changed) implementation becomes a reported
+# disagreement carrying the concrete input trace, never a crash or an endless run
+
+class _Timeout(Exception):
+    pass
+
+
+_ALARM_READY = [None]
+
+
+def _with_alarm(seconds, fn, *a):
+    """Run fn under a limit of `seconds` of *CPU time of this process* (ITIMER_PROF): a hang burns CPU and trips
+    it, a merely overloaded machine does not."""
+    import signal
+    if _ALARM_READY[0] is None:
+        def onalarm(sig, frm):
+            raise _Timeout("no fix-point / no return within the CPU-time limit")
+        try:
+            signal.signal(signal.SIGPROF, onalarm)
+            _ALARM_READY[0] = True
+        except ValueError:           # not in the main thread: run unguarded
+            _ALARM_READY[0] = False
+    if not _ALARM_READY[0]:
+        return fn(*a)
+    signal.setitimer(signal.ITIMER_PROF, seconds)
+    try:
+        return fn(*a)
+    finally:
+        signal.setitimer(signal.ITIMER_PROF, 0)
+
+
+def guard(inst, step_timeout=20):
+    """Wrap apply/sample/tick of an instance: an exception or a hang (combinational loop that never settles)
+    marks the instance broken; from then on `sample` returns impossible values, so the very letter that broke it
+    is reported as a disagreement with its trace from reset."""
+    nout = len(inst.qual)
+    o_apply, o_sample, nl = inst.apply, inst.sample, inst.netlist
+    o_tick, o_restore = nl.tick, nl.restore
+    inst.broken = None
+
+    def apply(letter):
+        if inst.broken is None:
+            try:
+                _with_alarm(step_timeout, o_apply, letter)
+            except Exception as e:                      # noqa: BLE001
+                inst.broken = "apply%r: %r" % (tuple(letter), e)
+
+    def sample():
+        if inst.broken is None:
+            try:
+                return _with_alarm(step_timeout, o_sample)
+            except Exception as e:                      # noqa: BLE001
+                inst.broken = "sample: %r" % (e,)
+        return [-1] * nout
+
+    def tick(cds=("sys",)):
+        if inst.broken is None:
+            try:
+                _with_alarm(step_timeout, o_tick, cds)
+            except Exception as e:                      # noqa: BLE001
+                inst.broken = "tick: %r" % (e,)
+
+    def restore(snap):
+        inst.broken = None
+        o_restore(snap)
+
+    inst.apply, inst.sample, nl.tick, nl.restore = apply, sample, tick, restore
+    return inst
+
+
+class _NullNetlist:
+    def snapshot(self):
+        return {}
+
+    def restore(self, snap):
+        pass
+
+    def state_key(self):
+        return ()
+
+    def tick(self, cds=("sys",)):
+        pass
+
+    def settle(self):
+        pass
+
+
+class BrokenInst:
+    """Stands in for an instance whose construction raised: its outputs can never match a model, so the job ends
+    with a disagreement naming the exception (the 'failing input' is the constructor call itself)."""
+
+    def __init__(self, what, err):
+        self.name = "BUILD-FAILED %s: %s" % (what, err)
+        self.lean_open = "wire"
+        self.netlist = _NullNetlist()
+        self.qual = [None] * 5
+        self.alphabet = [(0, 0, 0, 0, 0)]
+        self.broken = err
+
+    def apply(self, letter):
+        pass
+
+    def sample(self):
+        return [-1] * 5
+
+    def nontrivial(self, letter, outs):
+        return False
+
+    def gen(self, rng, t):
+        return (0, 0, 0, 0, 0)
+
+    def monitor(self):
+        inst = self
+
+        class M:
+            def observe(self, letter, outs):
+                return "instance could not be built: " + inst.broken
+        return M()
+
+
+class Safe:
+    """Job.make wrapper: build errors become a BrokenInst.  Keeps `__code__` of the wrapped constructor visible
+    (props/c04.py recognises the router jobs by the names their constructor lambda uses)."""
+
+    def __init__(self, mk, what="instance"):
+        self.mk = mk
+        self.what = what
+        self.__code__ = getattr(mk, "__code__", None)
+
+    def __call__(self):
+        try:
+            inst = _with_alarm(90, self.mk)
+        except Exception as e:                          # noqa: BLE001
+            import traceback
+            tb = traceback.extract_tb(e.__traceback__)
+            where = "%s:%d" % (tb[-1].filename.split("/")[-1], tb[-1].lineno) if tb else "?"
+            return BrokenInst(self.what, "%r at %s" % (e, where))
+        if hasattr(inst, "apply") and not hasattr(inst, "broken"):
+            guard(inst)
+        return inst
+
+
+# ------------------------------------------------------------------------------------------------------
+# observations beyond the per-handshake comparison
+
+class NoLoss:
+    """Wraps a scoreboard: while `pending()` says that something deliverable waits inside and the consumer is
+    ready, a delivery must happen within `limit` cycles — a token that never comes out is a lost token."""
+
+    def __init__(self, inner, pending, limit):
+        self.inner, self.pending, self.limit = inner, pending, limit
+        self.count = 0
+
+    def __getattr__(self, k):
+        return getattr(self.inner, k)
+
+    def observe(self, letter, outs):
+        m = self.inner.observe(letter, outs)
+        if m:
+            return m
+        rdy = letter[4]
+        delivered = outs[1] and rdy
+        if delivered or not rdy or not self.pending(self.inner):
+            self.count = 0
+        else:
+            self.count += 1
+            if self.count > self.limit:
+                return ("something deliverable is pending, the consumer has been ready for %d cycles, nothing was "
+                        "delivered (loss)" % self.count)
+        return None
+
+
+class FifoLevel:
+    """SyncFIFO(depth >= 2): the exported `level` equals the number of tokens in flight (scoreboard queue) at the
+    start of every cycle.  `inst._level` is sampled before the clock edge by `watch_level`."""
+
+    def __init__(self, inner, inst):
+        self.inner, self.inst = inner, inst
+
+    def __getattr__(self, k):
+        return getattr(self.inner, k)
+
+    def observe(self, letter, outs):
+        before = len(self.inner.q)
+        m = self.inner.observe(letter, outs)
+        if m:
+            return m
+        lv = getattr(self.inst, "_level", None)
+        if lv is not None and lv != before:
+            return "level output is %d with %d tokens in flight" % (lv, before)
+        return None
+
+
+def watch_level(inst, level_sig):
+    o_sample = inst.sample
+
+    def sample():
+        inst._level = inst.netlist.getu(level_sig)
+        return o_sample()
+    inst.sample = sample
+    return inst
+
+
 def reduce_garbage(inst):
     """Keep every letter with sink.valid = 1 but only two garbage patterns (all fields 0 / all fields 1) when
     sink.valid = 0: enough to expose any dependence on an invalid sink, and keeps mode A small."""
@@ -332,10 +536,11 @@ class MuxInst:
     """letter = (sel, source.ready, (valid, data, first, last) per sink); outs = [source.valid, data, first,
     last, sink_k.ready...]."""
 
-    def __init__(self, name, module, n, tokens=None, data_values=(0, 1), nb=None):
+    def __init__(self, name, module, n, tokens=None, data_values=(0, 1), nb=None, sel_sig=None):
         import itertools
         self.name, self.module, self.n = name, module, n
         self.nb = nb
+        self.sel_sig = sel_sig if sel_sig is not None else module.sel   # with_csr: the CSR storage register
         self.lean_open = "mux %d" % n
         self.netlist = Netlist(module)
         self.sinks = [getattr(module, "sink%d" % k) for k in range(n)]
@@ -347,13 +552,17 @@ class MuxInst:
         self.data_values = list(data_values)
         if tokens is None:
             tokens = [(0, 0, 0, 0), (1, 0, 0, 1), (1, 1, 1, 0), (0, 1, 1, 1)]   # (valid, data, first, last)
+        if n <= 3:
+            combos = list(itertools.product(tokens, repeat=n))
+        else:       # many sinks (mode B instances): all sinks alike, or one sink differing from idle others
+            combos = [tuple([t] * n) for t in tokens] + \
+                     [tuple(t if j == k else tokens[0] for j in range(n)) for k in range(n) for t in tokens[1:]]
         self.alphabet = [(sel, r) + tuple(x for t in combo for x in t)
-                         for sel in range(self.nsel) for r in (0, 1)
-                         for combo in itertools.product(tokens, repeat=n)]
+                         for sel in range(self.nsel) for r in (0, 1) for combo in combos]
 
     def apply(self, letter):
         nl = self.netlist
-        nl.set(self.module.sel, letter[0])
+        nl.set(self.sel_sig, letter[0])
         nl.set(self.source.ready, letter[1])
         for k, s in enumerate(self.sinks):
             v, d, f, l = letter[2 + 4 * k: 6 + 4 * k]
@@ -411,10 +620,11 @@ class DemuxInst:
     """letter = (sel, sink.valid, data, first, last, source_k.ready...); outs = [sink.ready, (valid, data, first,
     last) per source]."""
 
-    def __init__(self, name, module, n, tokens=None, nb=None):
+    def __init__(self, name, module, n, tokens=None, nb=None, sel_sig=None):
         import itertools
         self.name, self.module, self.n = name, module, n
         self.nb = nb
+        self.sel_sig = sel_sig if sel_sig is not None else module.sel
         self.lean_open = "demux %d" % n
         self.netlist = Netlist(module)
         self.sink = module.sink
@@ -432,7 +642,7 @@ class DemuxInst:
 
     def apply(self, letter):
         nl = self.netlist
-        nl.set(self.module.sel, letter[0])
+        nl.set(self.sel_sig, letter[0])
         nl.set(self.sink.valid, letter[1])
         _unpack(nl, self.sdata, letter[2])
         nl.set(self.sink.first, letter[3])
